@@ -8,12 +8,5 @@ CONSTANTS
   Acts <- AllActs
   ModeBlind = TRUE
   LinkBlind = FALSE
-INVARIANT TypeOK
-INVARIANT StatusExact
-INVARIANT CleanIffEqual
-INVARIANT Partition
-INVARIANT RoundTrip
 INVARIANT StageAllComplete
-INVARIANT NormalCovers
-PROPERTY StageAllAfterCheckout
 CHECK_DEADLOCK FALSE
